@@ -1205,8 +1205,12 @@ int EGLPNUM_TYPENAME_ILLwrite_mps (
 															 intmode, objname);
 			if (lp->refrowname && (lp->refind == -1))
 			{
-				EGLPNUM_TYPENAME_ILLprint_report (lp, "  %s    %s    %g\n",
-												 colnames[ri], lp->refrowname, lp->sos.matval[el]);
+				/* the weight is a number of the working type, not a double */
+				char *wstr = EGLPNUM_TYPENAME_EGlpNumGetStr (lp->sos.matval[el]);
+
+				EGLPNUM_TYPENAME_ILLprint_report (lp, "  %s    %s    %s\n",
+												 colnames[ri], lp->refrowname, wstr);
+				EGfree (wstr);
 			}
 		}
 		if (!empty)
